@@ -85,6 +85,10 @@ func isConstInt(v ssa.Value) (*big.Int, bool) {
 	return nil, false
 }
 
+func isSingleBit(b *big.Int) bool {
+	return b.Sign() > 0 && b.BitLen()-1 == int(b.TrailingZeroBits())
+}
+
 func pow2big(k int) *big.Int { return new(big.Int).Lsh(big.NewInt(1), uint(k)) }
 
 func isPow2Minus1(b *big.Int) (int, bool) {
@@ -145,9 +149,9 @@ func (e *Enc) binop(fr *Frame, b *ssa.BinOp, g string) {
 		case token.GEQ:
 			cmp(">=")
 		case token.ADD:
-			e.setOp(fr, b, wrapTo(rt, fmt.Sprintf("(+ %s %s)", xt, yt)))
+			e.setOp(fr, b, wrap1(rt, fmt.Sprintf("(+ %s %s)", xt, yt)))
 		case token.SUB:
-			e.setOp(fr, b, wrapTo(rt, fmt.Sprintf("(- %s %s)", xt, yt)))
+			e.setOp(fr, b, wrap1(rt, fmt.Sprintf("(- %s %s)", xt, yt)))
 		case token.MUL:
 			e.setOp(fr, b, wrapTo(rt, fmt.Sprintf("(* %s %s)", xt, yt)))
 		case token.QUO, token.REM:
@@ -183,12 +187,28 @@ func (e *Enc) binop(fr *Frame, b *ssa.BinOp, g string) {
 					return
 				}
 			}
+			if c, ok := isConstInt(b.Y); ok && isSingleBit(c) {
+				e.setOp(fr, b, fmt.Sprintf("(* %s (mod (div %s %s) 2))", c.String(), xt, c.String()))
+				return
+			}
+			if c, ok := isConstInt(b.X); ok && isSingleBit(c) {
+				e.setOp(fr, b, fmt.Sprintf("(* %s (mod (div %s %s) 2))", c.String(), yt, c.String()))
+				return
+			}
 			e.setOp(fr, b, fmt.Sprintf("(band %s %s)", xt, yt))
 		case token.OR:
+			if c, ok := isConstInt(b.Y); ok && isSingleBit(c) {
+				e.setOp(fr, b, fmt.Sprintf("(+ %s (* %s (- 1 (mod (div %s %s) 2))))", xt, c.String(), xt, c.String()))
+				return
+			}
 			e.setOp(fr, b, fmt.Sprintf("(bor %s %s)", xt, yt))
 		case token.XOR:
 			e.setOp(fr, b, fmt.Sprintf("(bxor %s %s)", xt, yt))
 		case token.AND_NOT:
+			if c, ok := isConstInt(b.Y); ok && isSingleBit(c) {
+				e.setOp(fr, b, fmt.Sprintf("(- %s (* %s (mod (div %s %s) 2)))", xt, c.String(), xt, c.String()))
+				return
+			}
 			e.setOp(fr, b, fmt.Sprintf("(bandnot %s %s)", xt, yt))
 		case token.SHL:
 			w, _ := intWidth(rt)
@@ -353,7 +373,7 @@ func (e *Enc) instr(fr *Frame, b *ssa.BasicBlock, in ssa.Instruction, g string, 
 			if o.v.S == "Real" {
 				e.setOp(fr, x, fmt.Sprintf("(- %s)", o.v.T))
 			} else {
-				e.setOp(fr, x, wrapTo(x.Type(), fmt.Sprintf("(- %s)", o.v.T)))
+				e.setOp(fr, x, wrap1(x.Type(), fmt.Sprintf("(- %s)", o.v.T)))
 			}
 		case token.XOR:
 			o := e.operand(fr, x.X)
